@@ -397,6 +397,13 @@ func ruleC04R4(r *Run) {
 					}
 				}
 			})
+			if !ok {
+				// (c) the test lives in a predicate method and/or the minting in a worker: judged where the worker is
+				// called (every static call site), or in this function when the predicate is called here
+				if d := c04PredicateGuarded(p, fn, c, 0); d != "" {
+					ok, detail = true, d
+				}
+			}
 			r.Check(name+" "+gen[strings.LastIndexByte(gen, '.')+1:], ok, posOf(p, c), name, detail)
 			if ok && memberTable != "" {
 				// the table the membership test reads must record the new value before the test can run again
@@ -418,6 +425,136 @@ func ruleC04R4(r *Run) {
 			}
 		}
 	}
+}
+
+// c04ValuePredicate: pf answers "does this value already have an alias" by value — every return is the found flag of
+// a comma-ok lookup, keyed by a non-pointer type, in a table of the Downstream; or pf scans such a table comparing
+// non-pointer values with ==, returns the constant true only on the equal edge and the constant false otherwise.
+func c04ValuePredicate(p *Prog, pf *ssa.Function) bool {
+	if pf.Blocks == nil || pf.Signature.Results().Len() != 1 {
+		return false
+	}
+	if b, isB := pf.Signature.Results().At(0).Type().Underlying().(*types.Basic); !isB || b.Kind() != types.Bool {
+		return false
+	}
+	lookupForm, n := true, 0
+	var consts []*ssa.Return
+	allInstrs(pf, func(x ssa.Instruction) {
+		ret, isRet := x.(*ssa.Return)
+		if !isRet || len(ret.Results) != 1 {
+			return
+		}
+		n++
+		if _, isC := ret.Results[0].(*ssa.Const); isC {
+			consts = append(consts, ret)
+		}
+		ex, isEx := canonVal(ret.Results[0]).(*ssa.Extract)
+		if !isEx || ex.Index != 1 {
+			lookupForm = false
+			return
+		}
+		lk, isL := ex.Tuple.(*ssa.Lookup)
+		if !isL || !lk.CommaOk {
+			lookupForm = false
+			return
+		}
+		if _, isPtr := lk.Index.Type().Underlying().(*types.Pointer); isPtr {
+			lookupForm = false
+			return
+		}
+		u, isU := lk.X.(*ssa.UnOp)
+		if !isU || !strings.HasPrefix(fieldKeyOfAddr(u.X), "/iscp.Downstream.") {
+			lookupForm = false
+		}
+	})
+	if n > 0 && lookupForm {
+		return true
+	}
+	if n == 0 || len(consts) != n {
+		return false
+	}
+	// scan form
+	okScan := false
+	allInstrs(pf, func(ins ssa.Instruction) {
+		bo, isBo := ins.(*ssa.BinOp)
+		if !isBo || bo.Op != token.EQL || bo.Referrers() == nil {
+			return
+		}
+		if _, xp := bo.X.Type().Underlying().(*types.Pointer); xp {
+			return
+		}
+		if _, yp := bo.Y.Type().Underlying().(*types.Pointer); yp {
+			return
+		}
+		fromTable := false
+		for _, l := range append(p.Leaves(bo.X, provOpts{}), p.Leaves(bo.Y, provOpts{})...) {
+			if strings.HasPrefix(l, "rangeval:field:/iscp.Downstream.") || strings.HasPrefix(l, "elem:/iscp.Downstream.") {
+				fromTable = true
+			}
+		}
+		if !fromTable {
+			return
+		}
+		for _, ref := range *bo.Referrers() {
+			ifs, isIf := ref.(*ssa.If)
+			if !isIf {
+				continue
+			}
+			good := true
+			for _, ret := range consts {
+				isTrue := ret.Results[0].(*ssa.Const).Value != nil && ret.Results[0].(*ssa.Const).Value.String() == "true"
+				onEqual := edgeDominates(ifs.Block(), ifs.Block().Succs[0], ret.Block())
+				if isTrue != onEqual {
+					good = false
+				}
+			}
+			if good {
+				okScan = true
+			}
+		}
+	})
+	return okScan
+}
+
+// c04PredicateGuarded: instruction at (a call of Next, or of the worker that mints) runs only on the "no alias yet"
+// edge of a value predicate called in the same function; when no such call is found and the function is an unexported
+// worker, every static call site is judged in its caller instead. Returns a description, or "".
+func c04PredicateGuarded(p *Prog, fn *ssa.Function, at ssa.Instruction, depth int) string {
+	found := ""
+	allInstrs(fn, func(x ssa.Instruction) {
+		pc, isC := x.(*ssa.Call)
+		if !isC || pc.Referrers() == nil {
+			return
+		}
+		pf := pc.Call.StaticCallee()
+		if pf == nil || !p.Analysed(pf) || !c04ValuePredicate(p, pf) {
+			return
+		}
+		for _, ref := range *pc.Referrers() {
+			if ifs, isIf := ref.(*ssa.If); isIf && edgeDominates(ifs.Block(), ifs.Block().Succs[1], at.Block()) {
+				found = "value predicate " + fnName(pf) + " called in " + fnName(fn) + "; the alias is minted only on its false edge"
+			}
+		}
+	})
+	if found != "" || depth >= 2 || fn.Parent() != nil || (fn.Object() != nil && fn.Object().Exported()) {
+		return found
+	}
+	sites := p.staticCallSites(fn)
+	if len(sites) == 0 {
+		return ""
+	}
+	out := ""
+	for _, site := range sites {
+		if _, isCall := site.(*ssa.Call); !isCall {
+			return ""
+		}
+		d := c04PredicateGuarded(p, site.Parent(), site, depth+1)
+		if d == "" {
+			return ""
+		}
+		out = d + " (worker " + fnName(fn) + ")"
+	}
+	return out
 }
 
 func ruleC04R5(r *Run) {
